@@ -100,6 +100,12 @@ CLAIMED['C17'] = ('Invalid.tla: every history of edits up to a depth bound that 
                   'accept every query',
                   'trusted: TLC, the object universe in pv/c17.py; multi-defect states are observed but not judged',
                   'DESIGN.md 2.8, 5 (C17)')
+CLAIMED['C16'] = ('Renderers.tla: seeded sessions of render / detach steps over generated databases x 4 renderer configurations x 3 ways of '
+                  'passing them; which class rendered, purity, unchanged model and exactly-once containment validated by TLC (TraceRenderers.tla)',
+                  'the handler rule (configured class for attached elements and columns, empty string for unhandled types, default for '
+                  'detached ones) and purity are specification operators evaluated by TLC on every step of every observed session',
+                  'trusted: TLC, the partial custom renderers defined in pv/c16.py (mirrored by Renderers!CustomHandles)',
+                  'DESIGN.md 2.8, 5 (C16)')
 NOT_YET = {}
 
 def main():
